@@ -1,6 +1,7 @@
 import PhyVerif.Model.C19
 import PhyVerif.Spec.C19
 import PhyVerif.Lemmas.C19
+import PhyVerif.Lemmas.C19b
 /-!
 # C19 — event dispatch follows registration order, sender filters and silencing;
 #        a progress reporter announces completion exactly once per crossing
@@ -31,6 +32,42 @@ restores the value saved at the enter. -/
 theorem emit_outcomes_any_nesting (result : Call → Nat) (ops : List EOp) (h : ExitsMatched ops 0) :
     erun result EState.init ops = emitsSpecG result [] ops :=
   Lemmas.emit_outcomes_any_nesting result ops h
+
+/-- "The currently registered callbacks", independently of the code's filter: after ANY history the
+emitter's callback list consists, in history order, of the registrations of exactly those `connect`s that did
+not raise and that no later `reset` and no later `unconnect` hit — an `unconnect(*items)` hits a registration
+when one of the items is its callback (equal, not necessarily identical: `obj.on_x` evaluated again), its sender
+filter, or the object its bound-method callback belongs to (`hits`, written item by item; the code's
+`f not in items and sender not in items and f.__self__ not in items`, event.py:110-116, is `keeps`).
+No hypothesis on the nesting of silent contexts. -/
+theorem state_registered (result : Call → Nat) (ops : List EOp) :
+    (erunState result EState.init ops).cbs = registeredFwd ops :=
+  Lemmas.state_registered result ops
+
+/-- the fold used by `emit_outcomes` / `emit_outcomes_any_nesting` is that list -/
+theorem registered_forward (ops : List EOp) : registered ops = registeredFwd ops :=
+  Lemmas.registered_eq_fwd ops
+
+/-- one `unconnect(*items)` removes exactly the registrations an item hits, keeping the order (and the
+multiplicity) of the others -/
+theorem unconnect_removes_exactly_hit (result : Call → Nat) (st : EState) (items : List UItem) :
+    (estep result st (.unconnect items)).1.cbs = st.cbs.filter (fun c => !hits items c) :=
+  Lemmas.unconnect_cbs result st items
+
+/-- `emit_outcomes_any_nesting` with the registered callbacks read off the history by `registeredFwd`: the
+statement the correspondence run uses (`spec` of the driver). -/
+theorem emit_outcomes_forward (result : Call → Nat) (ops : List EOp) (h : ExitsMatched ops 0) :
+    erun result EState.init ops = emitsSpecF result [] ops :=
+  Lemmas.emit_outcomes_forward result ops h
+
+/-- `connect` returns the function it was given (event.py:108; same value through the decorator form with
+arguments, event.py:98-99) exactly when it registers it — as the LAST entry of the callback list —, so that
+decorator use leaves the name bound to the function; when it raises, nothing changes. -/
+theorem connect_returns_registered (result : Call → Nat) (st : EState) (r : ConnReq) :
+    (∀ i, connectRet r = some i →
+      i = r.id ∧ ∃ c, c.id = i ∧ (estep result st (.connect r)).1.cbs = st.cbs ++ [c]) ∧
+    (connectRet r = none → (estep result st (.connect r)).1 = st) :=
+  Lemmas.connect_returns result st r
 
 /-- the silence flag after any such history -/
 theorem silent_flag_any_nesting (result : Call → Nat) (ops : List EOp) (h : ExitsMatched ops 0) :
@@ -104,6 +141,27 @@ theorem reporter_announce_ok (ops : List ROp) :
     announceOK [] ((rrun RState.init ops).map obsOf) = true :=
   Lemmas.reporter_announce_ok ops
 
+/-- `is_complete()` (value ≥ maximum) holds right after every announcement, and at every step after which the
+completion flag is still set (the flag that suppresses a second announcement is never set below the
+maximum). -/
+theorem reporter_is_complete (ops : List ROp) :
+    ∀ t ∈ rrun RState.init ops,
+      (t.2.2.1.completed = true → isComplete t.2.2.1 = true) ∧
+      (t.2.2.2.complete = true → isComplete t.2.2.1 = true) :=
+  Lemmas.reporter_is_complete ops
+
+/-- A reporter with messages: the completion message is printed once for an operation that announces
+completion and not at all otherwise (with `reporter_announce_ok`: exactly once per crossing); the progress
+message is printed exactly for a progress event with maximum ≠ 0 and value ≤ maximum; messages come in the
+order of the events, and `progress` is emitted before `complete`. -/
+theorem reporter_messages (o : ROut) :
+    o.printed.count REv.complete = (if o.complete then 1 else 0) ∧
+    (∀ v m, REv.progress v m ∈ o.printed ↔ (o.progress = some (v, m) ∧ m ≠ 0 ∧ v ≤ m)) ∧
+    o.printed.Sublist o.events ∧
+    (∀ v m, o.progress = some (v, m) → o.complete = true →
+      o.events = [REv.progress v m, REv.complete]) :=
+  Lemmas.printed_spec o
+
 /-! Non-vacuity -/
 example : erun stubResult EState.init
     [.connect ⟨"on_e0", none, none, 1, none, true⟩, .connect ⟨"f", some "e0", some 5, 2, none, false⟩,
@@ -132,5 +190,28 @@ example : connectCb ⟨"spam", none, none, 1, none, false⟩ = none ∧
     connectCb ⟨"on_my_event", none, some 2, 1, none, true⟩ = some ⟨"my_event", some 2, 1, none, true⟩ := by decide
 example : (rrun RState.init [.setMax 1, .increment, .reset none, .increment]).map (·.2.2.2.complete)
     = [false, true, false, true] := by decide
+-- unconnect by callback removes every registration of that callback (plain and bound method), by object the
+-- registrations filtered on it and the bound methods of it; a reset in between forgets everything before
+example : registeredFwd
+    [.connect ⟨"on_e0", none, none, 0, none, false⟩, .connect ⟨"cb1", some "e0", some 0, 1, none, false⟩,
+     .connect ⟨"on_e0", none, some 1, 1, some 8, true⟩, .connect ⟨"cb2", some "e0", none, 2, some 7, true⟩,
+     .unconnect [.cb 1], .connect ⟨"spam", none, none, 0, none, false⟩, .unconnect [.obj 7],
+     .connect ⟨"cb1", some "e1", some 0, 1, none, false⟩]
+    = [⟨"e0", none, 0, none, false⟩, ⟨"e1", some 0, 1, none, false⟩] ∧
+  registeredFwd [.connect ⟨"on_e0", none, none, 0, none, false⟩, .reset,
+     .connect ⟨"cb1", some "e0", some 0, 1, none, false⟩, .unconnect [.obj 0]] = [] ∧
+  hits [.obj 7, .cb 1] ⟨"e0", none, 2, some 7, true⟩ = true ∧
+  hits [.obj 7, .cb 1] ⟨"e0", some 1, 0, none, false⟩ = false := by decide
+example : connectRets [.connect ⟨"on_e0", none, none, 3, none, false⟩, .reset,
+    .connect ⟨"spam", none, none, 4, none, false⟩, .connect ⟨"spam", some "e", none, 4, none, true⟩]
+    = [some 3, none, some 4] := by decide
+-- a fresh reporter "is complete" (0 ≥ 0) without ever having announced; lowering the maximum keeps the flag
+example : (rrun RState.init [.setMax 2, .increment, .increment, .setMax 1, .setValue 0]).map
+      (fun t => (t.2.2.1.completed, isComplete t.2.2.1, t.2.2.2.printed))
+    = [(false, false, []), (false, false, [.progress 1 2]), (true, true, [.progress 2 2, .complete]),
+       (true, true, []), (false, false, [.progress 0 1])] ∧
+  isComplete RState.init = true ∧ progressFrac RState.init = none ∧
+  (rstep RState.init (.setValue 3)).2.printed = [.complete] ∧
+  progressFrac (rstep ⟨0, 2, false⟩ (.setValue 3)).1 = some (3, 2) := by decide
 
 end PhyVerif.C19
